@@ -35,7 +35,315 @@ fn c03() {
     }
 }
 
+
+// ---- triage group 1 (CID/store suspects S1, S2, S4) ----
+mod g1 {
+    use super::*;
+// ---------------------------------------------------------------------------------------------
+// crafted-data helpers
+mod craft {
+    pub use air_interpreter_cid::{value_to_json_cid, CID};
+    pub use air_interpreter_data::*;
+    pub use air_interpreter_signatures::{KeyFormat, KeyPair, PeerCidTracker, SignatureStore};
+    pub use polyplets::SecurityTetraplet;
+    use std::rc::Rc;
+
+    pub fn envelope(trace: Vec<ExecutedState>, cid_info: CidInfo, signatures: SignatureStore) -> Vec<u8> {
+        InterpreterDataEnvelope::from_execution_result(
+            ExecutionTrace::from(trace), cid_info, signatures, 0, semver::Version::parse("0.64.1").unwrap(),
+        ).serialize().unwrap()
+    }
+
+    /// keypair of the malicious peer created by `peer(seed)`
+    pub fn keypair(seed: u8) -> KeyPair { KeyPair::from_secret_key(vec![seed; 32], KeyFormat::Ed25519).unwrap() }
+
+    /// M signs the given CIDs (salt = particle id used by `run`)
+    pub fn sign<T>(seed: u8, peer_id: &str, cids: &[&CID<T>]) -> SignatureStore {
+        let kp = keypair(seed);
+        let mut tracker = PeerCidTracker::new(peer_id.to_string());
+        for cid in cids { tracker.register(peer_id, cid); }
+        let mut store = SignatureStore::new();
+        store.put(kp.public(), tracker.gen_signature("particle", &kp).unwrap());
+        store
+    }
+
+    /// RawValue has no constructor from a raw string, but it is #[serde(transparent)] over the raw string.
+    pub fn raw_value(raw: &str) -> RawValue { serde_json::from_value(serde_json::Value::String(raw.to_string())).unwrap() }
+
+    /// A consistent CidInfo holding one service result of `(call peer_id ("s" "f") [])` whose raw value is `raw`.
+    pub fn service_result(peer_id: &str, raw: &str) -> (CidInfo, CID<ServiceResultCidAggregate>) {
+        let mut values = CidTracker::<RawValue>::new();
+        let value_cid = values.track_raw_value(raw_value(raw));
+        let mut tetraplets = CidTracker::<SecurityTetraplet>::new();
+        let tetraplet_cid = tetraplets.track_value(SecurityTetraplet::new(peer_id, "s", "f", "")).unwrap();
+        let argument_hash: Rc<str> = value_to_json_cid(&Vec::<serde_json::Value>::new()).unwrap().get_inner();
+        let mut results = CidTracker::<ServiceResultCidAggregate>::new();
+        let agg_cid = results.track_value(ServiceResultCidAggregate { value_cid, argument_hash, tetraplet_cid }).unwrap();
+        let cid_info = CidInfo {
+            value_store: values.into(), tetraplet_store: tetraplets.into(), service_result_store: results.into(),
+            ..Default::default()
+        };
+        (cid_info, agg_cid)
+    }
+}
+
+fn report(id: &str, f: impl FnOnce() -> InterpreterOutcome) {
+    let r = std::panic::catch_unwind(std::panic::AssertUnwindSafe(f));
+    match r {
+        Ok(o) => println!("NOT REPRODUCED {id}: ret_code={} msg={}", o.ret_code, o.error_message.chars().take(200).collect::<String>()),
+        Err(e) => {
+            let msg = e.downcast_ref::<String>().cloned().or_else(|| e.downcast_ref::<&str>().map(|s| s.to_string())).unwrap_or_default();
+            println!("REPRODUCED {id}: {msg}")
+        }
+    }
+}
+
+/// S1: a CID mentioned in the trace that is absent from the (internally consistent, here empty) CID stores.
+fn s1() {
+    use craft::*;
+    let dangling = "bagaaihrarcyykpv4oj7zwdbepczyfthxya4og7s2rwvrzolm5kg2eu5dz3xa";
+    let variants: Vec<(&str, ExecutedState)> = vec![
+        ("S1/call-executed-scalar", ExecutedState::Call(CallResult::Executed(ValueRef::Scalar(CID::new(dangling))))),
+        ("S1/call-executed-stream", ExecutedState::Call(CallResult::Executed(ValueRef::Stream { cid: CID::new(dangling), generation: 0usize.into() }))),
+        ("S1/call-failed", ExecutedState::Call(CallResult::Failed(CID::new(dangling)))),
+        ("S1/canon-executed", ExecutedState::Canon(CanonResult::Executed(CID::new(dangling)))),
+    ];
+    for (id, state) in variants {
+        report(id, || {
+            let mut v = peer(3);
+            let vid = v.id.clone();
+            let data = envelope(vec![state], CidInfo::default(), SignatureStore::new());
+            run(&mut v, &vid, "(null)", data, HashMap::new())
+        });
+    }
+    // service result present, its tetraplet reference is checked by CidInfo::verify -> second expect is guarded
+    report("S1/missing-tetraplet (expected to be rejected by CidInfo::verify)", || {
+        let mut v = peer(3);
+        let vid = v.id.clone();
+        let m = peer(4);
+        let (mut cid_info, agg) = service_result(&m.id, "1");
+        cid_info.tetraplet_store = CidStore::new();
+        let data = envelope(vec![ExecutedState::Call(CallResult::Executed(ValueRef::Scalar(agg)))], cid_info, SignatureStore::new());
+        run(&mut v, &vid, "(null)", data, HashMap::new())
+    });
+}
+
+/// S2: value store entry that is not JSON, stored under its correct (raw-bytes) CID and signed by M.
+fn s2() {
+    use craft::*;
+    for (id, raw, failed) in [("S2/control-valid-json", "42", false), ("S2/not-json", "not json", false), ("S2/not-json-in-Failed", "not json", true)] {
+        report(id, || {
+            let mut v = peer(3);
+            let vid = v.id.clone();
+            let m = peer(4);
+            let (cid_info, agg) = service_result(&m.id, raw);
+            let signatures = sign(4, &m.id, &[&agg]);
+            let call = if failed { CallResult::Failed(agg) } else { CallResult::Executed(ValueRef::Scalar(agg)) };
+            let data = envelope(vec![ExecutedState::Call(call)], cid_info, signatures);
+            let air = format!(r#"(call "{}" ("s" "f") [] x)"#, m.id);
+            run(&mut v, &vid, &air, data, HashMap::new())
+        });
+    }
+}
+
+/// S4: generation index taken from the data drives `Vec::resize`.
+fn s4_ap(generation: u32) -> InterpreterOutcome {
+    use craft::*;
+    let mut v = peer(3);
+    let vid = v.id.clone();
+    let data = envelope(
+        vec![ExecutedState::Ap(ApResult { res_generations: vec![(generation as usize).into()] })],
+        CidInfo::default(), SignatureStore::new());
+    run(&mut v, &vid, "(ap 1 $s)", data, HashMap::new())
+}
+
+fn s4_call(generation: u32) -> InterpreterOutcome {
+    use craft::*;
+    let mut v = peer(3);
+    let vid = v.id.clone();
+    let m = peer(4);
+    let (cid_info, agg) = service_result(&m.id, "1");
+    let signatures = sign(4, &m.id, &[&agg]);
+    let state = ExecutedState::Call(CallResult::Executed(ValueRef::Stream { cid: agg, generation: (generation as usize).into() }));
+    let data = envelope(vec![state], cid_info, signatures);
+    let air = format!(r#"(call "{}" ("s" "f") [] $s)"#, m.id);
+    run(&mut v, &vid, &air, data, HashMap::new())
+}
+
+fn rss_kb() -> (u64, u64) {
+    let s = std::fs::read_to_string("/proc/self/status").unwrap();
+    let get = |k: &str| s.lines().find(|l| l.starts_with(k)).and_then(|l| l.split_whitespace().nth(1)).and_then(|x| x.parse().ok()).unwrap_or(0);
+    (get("VmRSS:"), get("VmHWM:"))
+}
+
+fn s4(args: &[String]) {
+    // `s4 ap <gen>` / `s4 call <gen>`: one measured run (use in a child process under ulimit -v)
+    if args.len() >= 2 {
+        let g: u32 = args[1].parse().unwrap();
+        let id = format!("S4/{}/gen={}", args[0], g);
+        let t = std::time::Instant::now();
+        let is_ap = args[0] == "ap";
+        report(&id, || if is_ap { s4_ap(g) } else { s4_call(g) });
+        let (rss, hwm) = rss_kb();
+        println!("  {id}: elapsed={:?} VmRSS={} kB VmHWM(peak)={} kB", t.elapsed(), rss, hwm);
+        return;
+    }
+    report("S4/ap/gen=0 (control)", || s4_ap(0));
+    report("S4/call/gen=0 (control)", || s4_call(0));
+    report("S4/ap/gen=u32::MAX", || s4_ap(u32::MAX));
+    report("S4/call/gen=u32::MAX", || s4_call(u32::MAX));
+}
+
+    pub fn main_g1(which: &[String]) { if which.iter().any(|w| w=="s1") { s1(); } if which.iter().any(|w| w=="s2") { s2(); } if which.first().map(|w| w=="s4").unwrap_or(false) { s4(&which[1..]); } }
+}
+
+// ---- triage group 2 (trace arithmetic suspects S3, S3x, S8, S9, S10, S26) ----
+mod g2 {
+    use super::*;
+use air_interpreter_data::{ApResult, ExecutedState, ExecutionTrace, FoldResult, FoldSubTraceLore, GenerationIdx, ParResult, SubTraceDesc, TracePos, CidInfo, InterpreterDataEnvelope};
+use air_interpreter_signatures::SignatureStore;
+
+pub fn craft(states: Vec<ExecutedState>) -> Vec<u8> {
+    InterpreterDataEnvelope::from_execution_result(ExecutionTrace::from(states), CidInfo::default(), SignatureStore::new(), 0,
+        semver::Version::parse("0.64.1").unwrap()).serialize().unwrap()
+}
+pub fn ap(gens: &[u32]) -> ExecutedState { ExecutedState::Ap(ApResult { res_generations: gens.iter().map(|g| GenerationIdx::from(*g as usize)).collect() }) }
+pub fn par(l: u32, r: u32) -> ExecutedState { ExecutedState::Par(ParResult { left_size: l, right_size: r }) }
+pub fn desc(pos: u32, len: u32) -> SubTraceDesc { SubTraceDesc { begin_pos: TracePos::from(pos), subtrace_len: len } }
+pub fn lore(value_pos: u32, descs: Vec<SubTraceDesc>) -> FoldSubTraceLore { FoldSubTraceLore { value_pos: TracePos::from(value_pos), subtraces_desc: descs } }
+pub fn fold(l: Vec<FoldSubTraceLore>) -> ExecutedState { ExecutedState::Fold(FoldResult { lore: l }) }
+
+/// Victim (seed 7) runs `air` with empty prev_data and the crafted trace as current data.
+pub fn attempt(id: &str, air: &str, states: Vec<ExecutedState>) {
+    let data = if states.is_empty() { vec![] } else { craft(states) };
+    let air = air.to_string();
+    let r = std::panic::catch_unwind(std::panic::AssertUnwindSafe(|| {
+        let mut v = peer(7);
+        let init = v.id.clone();
+        let air = air.replace("PEER", &init);
+        run(&mut v, &init, &air, data, HashMap::new())
+    }));
+    match r {
+        Err(e) => {
+            let msg = e.downcast_ref::<String>().cloned().or_else(|| e.downcast_ref::<&str>().map(|s| s.to_string())).unwrap_or_default();
+            println!("REPRODUCED {id}: {msg}");
+        }
+        Ok(o) => println!("NOT REPRODUCED {id}: ret_code={} msg={}", o.ret_code, o.error_message.chars().take(200).collect::<String>()),
+    }
+}
+
+const FOLD_AFTER_AP: &str = r#"(seq (ap 1 $s) (fold $s i (seq (null) (next i))))"#;
+const FOLD_ONLY_NEW: &str = r#"(new $s (fold $s i (seq (null) (next i))))"#;
+
+fn s3() {
+    // fold lore: before-subtrace begins at u32::MAX with len 1 -> `position + subtrace_len` in set_position_and_len
+    attempt("S3 fold begin_pos=u32::MAX len=1", FOLD_AFTER_AP,
+        vec![ap(&[0]), fold(vec![lore(0, vec![desc(u32::MAX, 1), desc(3, 0)])]), ap(&[0])]);
+    // same on the after-subtrace
+    attempt("S3 fold after begin_pos=u32::MAX len=1", FOLD_AFTER_AP,
+        vec![ap(&[0]), fold(vec![lore(0, vec![desc(2, 0), desc(u32::MAX, 1)])]), ap(&[0])]);
+    // par with huge sizes
+    for (l, r) in [(u32::MAX, 1), (u32::MAX, 0), (u32::MAX - 1, 0), (0, u32::MAX), (0x8000_0000, 0x7fff_ffff), (2, 0), (0, 2)] {
+        attempt(&format!("S3 par({l},{r})"), "(par (null) (null))", vec![par(l, r)]);
+        attempt(&format!("S3 par({l},{r}) + 1 trailing state"), "(par (null) (null))", vec![par(l, r), ap(&[0])]);
+    }
+    // EXTRA: zero-length window at an out-of-trace position, then a par inside the iteration -> set_subtrace_len: trace_len - position
+    attempt("S3x fold begin_pos=100 len=0 then par (set_subtrace_len underflow)",
+        r#"(seq (ap 1 $s) (fold $s i (seq (par (null) (null)) (next i))))"#,
+        vec![ap(&[0]), fold(vec![lore(0, vec![desc(100, 0), desc(100, 0)])])]);
+    // EXTRA variant: 2nd iteration has no lore -> apply_fold_lore(None) -> set_subtrace_len(0) with position left at 100
+    attempt("S3x fold begin_pos=100 len=0, second value without lore",
+        r#"(seq (seq (ap 1 $s) (ap 2 $s)) (fold $s i (seq (null) (next i))))"#,
+        vec![ap(&[0]), ap(&[0]), fold(vec![lore(0, vec![desc(100, 0), desc(100, 0)])])]);
+}
+
+fn s10() {
+    attempt("S10 two lore entries after_len=3e9 each", r#"(seq (seq (ap 1 $s) (ap 2 $s)) (fold $s i (seq (null) (next i))))"#,
+        vec![ap(&[0]), ap(&[0]), fold(vec![lore(0, vec![desc(3, 0), desc(3, 3_000_000_000)]), lore(1, vec![desc(3, 0), desc(3, 3_000_000_000)])])]);
+    attempt("S10 before_len=3e9 twice", r#"(seq (seq (ap 1 $s) (ap 2 $s)) (fold $s i (seq (null) (next i))))"#,
+        vec![ap(&[0]), ap(&[0]), fold(vec![lore(0, vec![desc(3, 3_000_000_000), desc(3, 0)]), lore(1, vec![desc(3, 3_000_000_000), desc(3, 0)])])]);
+    attempt("S10 one lore before=u32::MAX after=u32::MAX", FOLD_AFTER_AP,
+        vec![ap(&[0]), fold(vec![lore(0, vec![desc(2, u32::MAX), desc(2, u32::MAX)])])]);
+    attempt("S10 subtraces_desc empty", FOLD_AFTER_AP, vec![ap(&[0]), fold(vec![lore(0, vec![])])]);
+    attempt("S10 subtraces_desc 1 entry", FOLD_AFTER_AP, vec![ap(&[0]), fold(vec![lore(0, vec![desc(2, 0)])])]);
+    attempt("S10 subtraces_desc 3 entries", FOLD_AFTER_AP, vec![ap(&[0]), fold(vec![lore(0, vec![desc(2, 0), desc(2, 0), desc(2, 0)])])]);
+    attempt("S10 second lore malformed", r#"(seq (seq (ap 1 $s) (ap 2 $s)) (fold $s i (seq (null) (next i))))"#,
+        vec![ap(&[0]), ap(&[0]), fold(vec![lore(0, vec![desc(3, 0), desc(3, 0)]), lore(1, vec![])])]);
+    attempt("S10 empty lore", FOLD_AFTER_AP, vec![ap(&[0]), fold(vec![])]);
+    attempt("S10 different generations", r#"(seq (seq (ap 1 $s) (ap 2 $s)) (fold $s i (seq (null) (next i))))"#,
+        vec![ap(&[0]), ap(&[1]), fold(vec![lore(0, vec![desc(3, 0), desc(3, 0)]), lore(1, vec![desc(3, 0), desc(3, 0)])])]);
+}
+
+fn s9() {
+    // value_pos points at an Ap state with empty res_generations that was never merged by an `ap` instruction
+    attempt("S9 fold value_pos -> Ap{res_generations: []}", FOLD_AFTER_AP,
+        vec![ap(&[0]), fold(vec![lore(2, vec![desc(2, 0), desc(2, 0)])]), ap(&[])]);
+    attempt("S9 (new $s ..) variant", FOLD_ONLY_NEW,
+        vec![fold(vec![lore(1, vec![desc(1, 0), desc(1, 0)])]), ap(&[])]);
+    // control: the same Ap met by an ap instruction is rejected by to_maybe_generation!
+    attempt("S9 control: ap instruction meets Ap{[]}", FOLD_AFTER_AP, vec![ap(&[]), fold(vec![])]);
+    attempt("S9 control: ap instruction meets Ap{[0,1]}", FOLD_AFTER_AP, vec![ap(&[0, 1]), fold(vec![])]);
+}
+
+fn s8() {
+    // value_pos points at a Fold state whose sublore has no descriptors -> KeeperError::NoStreamState{state} -> Display
+    attempt("S8 NoStreamState with malformed Fold (other state)", FOLD_AFTER_AP,
+        vec![ap(&[0]), fold(vec![lore(2, vec![desc(2, 0), desc(2, 0)])]), fold(vec![lore(0, vec![])])]);
+    // self-referential: first sublore well-formed and points at the fold itself, second sublore malformed
+    attempt("S8 NoStreamState with malformed Fold (self)", FOLD_AFTER_AP,
+        vec![ap(&[0]), fold(vec![lore(1, vec![desc(2, 0), desc(2, 0)]), lore(0, vec![])])]);
+    attempt("S8 control: NoStreamState with well-formed Fold", FOLD_AFTER_AP,
+        vec![ap(&[0]), fold(vec![lore(1, vec![desc(2, 0), desc(2, 0)])])]);
+    // controls: incompatible-state errors use {:?}
+    attempt("S8 control: call meets malformed Fold", r#"(call "x" ("a" "b") [])"#, vec![fold(vec![lore(0, vec![])])]);
+    attempt("S8 control: par meets malformed Fold", "(par (null) (null))", vec![fold(vec![lore(0, vec![])])]);
+    attempt("S8 control: ap meets malformed Fold", "(ap 1 $s)", vec![fold(vec![lore(0, vec![])])]);
+}
+
+fn s26() {
+    // script only, no data: one syntactic `next i`, executed twice per iteration through an inner fold
+    attempt("S26 next of outer iterator inside inner stream fold",
+        r#"(seq (seq (seq (ap 1 $s) (ap 2 $s)) (seq (ap 1 $t) (ap 2 $t))) (fold $s i (fold $t j (seq (next i) (next j)))))"#, vec![]);
+    attempt("S26 next of outer iterator inside inner scalar fold (seq)",
+        r#"(seq (seq (seq (ap 1 $s) (ap 2 $s)) (seq (seq (ap 1 $t) (ap 2 $t)) (canon "PEER" $t #c))) (fold $s i (fold #c j (seq (next j) (next i)))))"#, vec![]);
+    attempt("S26 next of outer iterator inside inner scalar fold (par)",
+        r#"(seq (seq (seq (ap 1 $s) (ap 2 $s)) (seq (seq (ap 1 $t) (ap 2 $t)) (canon "PEER" $t #c))) (fold $s i (fold #c j (par (next j) (next i)))))"#, vec![]);
+    attempt("S26 next in body and in last instruction", r#"(seq (seq (ap 1 $s) (ap 2 $s)) (fold $s i (seq (null) (next i)) (next i)))"#, vec![]);
+    attempt("S26 next in both xor branches", r#"(seq (seq (ap 1 $s) (ap 2 $s)) (fold $s i (xor (next i) (next i))))"#, vec![]);
+    attempt("S26 xor(par(fail, next), null) twice nested", r#"(seq (seq (ap 1 $s) (ap 2 $s)) (fold $s i (par (xor (fail 1 "x") (null)) (xor (next i) (null)))))"#, vec![]);
+    // errors inside iterations / xor around par
+    attempt("S26 fail after next in xor", r#"(seq (seq (ap 1 $s) (ap 2 $s)) (fold $s i (xor (seq (next i) (fail 1 "x")) (null))))"#, vec![]);
+    attempt("S26 par next with failing left", r#"(seq (seq (ap 1 $s) (ap 2 $s)) (fold $s i (xor (par (fail 1 "x") (next i)) (null))))"#, vec![]);
+    attempt("S26 next in last instruction position", r#"(seq (seq (ap 1 $s) (ap 2 $s)) (fold $s i (seq (null) (next i)) (null)))"#, vec![]);
+}
+
+    pub fn main_g2(which: &[String]) { for w in which { match w.as_str() { "s3" => s3(), "s10" => s10(), "s9" => s9(), "s8" => s8(), "s26" => s26(), _ => {} } } }
+}
+
+// ---- deep nesting (C01 recursion findings): run each in its own process, a stack overflow aborts ----
+fn nested(n: usize) -> String {
+    let mut s = String::with_capacity(n * 12);
+    for _ in 0..n { s.push_str("(seq (null) "); }
+    s.push_str("(null)");
+    for _ in 0..n { s.push(')'); }
+    s
+}
+fn deep(args: &[String]) {
+    let what = args.get(0).map(|s| s.as_str()).unwrap_or("parse");
+    let n: usize = args.get(1).and_then(|s| s.parse().ok()).unwrap_or(200_000);
+    let script = nested(n);
+    match what {
+        "parse" => { let r = air_parser::parse(&script); println!("deep parse n={n}: ok={}", r.is_ok()); }
+        "execute" => { let mut v = peer(9); let id = v.id.clone(); let o = run(&mut v, &id, &script, vec![], HashMap::new()); println!("deep execute n={n}: ret={}", o.ret_code); }
+        "beautify" => { let r = air_beautifier::beautify_to_string(&script); println!("deep beautify n={n}: ok={}", r.is_ok()); }
+        _ => {}
+    }
+}
+
 fn main() {
     let which: Vec<String> = std::env::args().skip(1).collect();
+    if which.first().map(|w| w == "deep").unwrap_or(false) { deep(&which[1..]); return; }
     if which.is_empty() || which.iter().any(|w| w == "c03") { c03(); }
+    g1::main_g1(&which);
+    g2::main_g2(&which);
 }
